@@ -37,7 +37,7 @@ def find_method(defs, cls, name):
     return None
 
 
-def classify(expr, slot, factor_names):
+def classify(expr, slot, factor_names, params=()):
     """action of `new._slot = expr`"""
     u = ast.unparse(expr)
     if isinstance(expr, ast.Constant) and expr.value is None:
@@ -69,7 +69,10 @@ def classify(expr, slot, factor_names):
         if len(g.generators) == 1 and ast.unparse(g.generators[0].iter) == 'self.%s' % slot and isinstance(g.elt, ast.Call) \
                 and isinstance(g.elt.func, ast.Attribute) and isinstance(g.elt.func.value, ast.Name) \
                 and g.elt.func.value.id == g.generators[0].target.id:
-            return 'Lifted "%s"' % g.elt.func.attr
+            # ... called with exactly the parameters of the enclosing operation, in order (a dropped or swapped argument
+            # transforms the cached sub-objects differently from the object itself)
+            if [ast.unparse(a) for a in g.elt.args] == list(params) and not g.elt.keywords:
+                return 'Lifted "%s"' % g.elt.func.attr
     return 'Other "%s"' % u.replace('"', "'").replace('\n', ' ')[:120]
 
 
@@ -100,7 +103,7 @@ def analyze(defs, cls, fn, newvars=None, factor_names=None, depth=0):
                             res.update(sub)
                 elif isinstance(t, ast.Attribute) and isinstance(t.value, ast.Name) and t.value.id in newvars:
                     if t.attr not in DEFINING.get(cls, DEFINING_COMMON):
-                        res[t.attr] = classify(st.value, t.attr, factor_names)
+                        res[t.attr] = classify(st.value, t.attr, factor_names, [a.arg for a in fn.args.args][1:])
             elif isinstance(st, ast.Expr) and isinstance(st.value, ast.Call) and isinstance(st.value.func, ast.Attribute) \
                     and isinstance(st.value.func.value, ast.Name) and st.value.func.value.id == 'self' and depth < 3:
                 callee = find_method(defs, cls, st.value.func.attr)
